@@ -17,6 +17,7 @@ import Spydr.Verilog.RoundTripHierE
 import Spydr.Verilog.RoundTripHierH
 import Spydr.Verilog.RoundTripHierI
 import Spydr.Verilog.RoundTripAsgE
+import Spydr.Verilog.RoundTripAsgI
 import Spydr.Verilog.WFWiresC
 
 #print axioms Spydr.Verilog.getWires_spec
@@ -192,6 +193,23 @@ import Spydr.Verilog.WFWiresC
 #print axioms Spydr.Verilog.Elab.c04_ast_hierA
 #print axioms Spydr.Verilog.Elab.exNetHA_frag
 #print axioms Spydr.Verilog.Elab.exNetHA_has_assigns
+#print axioms Spydr.Verilog.Elab.bodyGo_asg
+#print axioms Spydr.Verilog.Elab.topGo_mod
+#print axioms Spydr.Verilog.Elab.parse_hierA
+#print axioms Spydr.Verilog.Elab.assigns_foldA
+#print axioms Spydr.Verilog.Elab.instances_foldA
+#print axioms Spydr.Verilog.Elab.moduleText_topA
+#print axioms Spydr.Verilog.Elab.anys_textA
+#print axioms Spydr.Verilog.Elab.composeV_text_hierA
+#print axioms Spydr.Verilog.Elab.chars_asgP
+#print axioms Spydr.Verilog.Elab.toks_asgP
+#print axioms Spydr.Verilog.Elab.chars_modPA
+#print axioms Spydr.Verilog.Elab.toks_modPA
+#print axioms Spydr.Verilog.Elab.chars_filePHA
+#print axioms Spydr.Verilog.Elab.toks_filePHA
+#print axioms Spydr.Verilog.Elab.c04_text_hierA
+#print axioms Spydr.Verilog.Elab.exNetHA_struct
+#print axioms Spydr.Verilog.Elab.exNetHA_roundtrip
 #print axioms Spydr.Verilog.Elab.createOrUpdateCable_ww
 #print axioms Spydr.Verilog.Elab.elabDesign_ww
 #print axioms Spydr.Verilog.Elab.reader_wiresWF
